@@ -35,6 +35,35 @@ type Pipe struct {
 	Writes int
 	// DataWithErr counts reads that returned data and the end error together.
 	DataWithErr int
+	// gate: while non-nil, Write blocks (the reader's side is not draining:
+	// back-pressure); see Stall / Resume.
+	gate chan struct{}
+}
+
+// Stall makes subsequent Writes block until Resume.
+func (p *Pipe) Stall() {
+	p.mu.Lock()
+	if p.gate == nil {
+		p.gate = make(chan struct{})
+	}
+	p.mu.Unlock()
+}
+
+// Resume lets blocked and later Writes proceed.
+func (p *Pipe) Resume() {
+	p.mu.Lock()
+	if p.gate != nil {
+		close(p.gate)
+		p.gate = nil
+	}
+	p.mu.Unlock()
+}
+
+// Buffered returns a copy of the bytes written and not yet read.
+func (p *Pipe) Buffered() []byte {
+	p.mu.Lock()
+	defer p.mu.Unlock()
+	return append([]byte{}, p.buf...)
 }
 
 func (p *Pipe) bcast() {
@@ -46,6 +75,15 @@ func (p *Pipe) bcast() {
 
 // Write appends b atomically.
 func (p *Pipe) Write(b []byte) (int, error) {
+	for {
+		p.mu.Lock()
+		g := p.gate
+		p.mu.Unlock()
+		if g == nil {
+			break
+		}
+		<-g
+	}
 	p.mu.Lock()
 	defer p.mu.Unlock()
 	if p.err != nil {
